@@ -5,7 +5,7 @@
 (* mutation machine over a well-formed request / response; the oracle is   *)
 (* the outcome alphabet (every call returns normally).                     *)
 (***************************************************************************)
-EXTENDS Naturals, Sequences, FiniteSets, TLC
+EXTENDS Naturals, Sequences, FiniteSets, FiniteSetsExt, TLC
 
 CONSTANTS MaxFeat, MaxMut
 
@@ -40,7 +40,7 @@ RespMutations == {
 VARIABLES feats, muts, side, multi
 vars == <<feats, muts, side, multi>>
 
-Init == /\ feats \in {F \in SUBSET DocFeatures : Cardinality(F) <= MaxFeat}
+Init == /\ feats \in UNION {kSubset(k, DocFeatures) : k \in 0..MaxFeat}
         /\ muts = <<>> /\ side \in {"request", "response"} /\ multi \in BOOLEAN
 Mutate(m) == /\ Len(muts) < MaxMut /\ ~\E i \in DOMAIN muts : muts[i] = m
              /\ muts' = Append(muts, m) /\ UNCHANGED <<feats, side, multi>>
